@@ -78,7 +78,7 @@ def harvest(repo=REPO):
             s2 = dict((k, v) for k, v in s.items() if k in conf)
             if s2 and s2 not in good:
                 good.append(s2)
-        out[oRule.unique_id] = {"settings": good, "disabled_by_default": bool(oRule.disable)}
+        out[oRule.unique_id] = {"settings": good, "disabled_by_default": bool(oRule.disable), "attrs": sorted(conf)}
         out_inputs[oRule.unique_id] = sorted(inputs.get((mod, cls), []))
     return out, out_inputs
 
@@ -94,6 +94,24 @@ def sweep_config(table, k):
         if table[rid]["disabled_by_default"]:
             s["disable"] = False
         rules[rid] = s
+    return {"rule": rules}, set(rules)
+
+
+PREFIXES = ["i_", "o_", "c_", "g_", "s_", "e_", "t_", "r_", "p_"]
+SUFFIXES = ["_t", "_a", "_i", "_o", "_s", "_r", "_n", "_e", "_c", "_g", "_d", "_p"]
+
+
+def affix_config(table, case):
+    """every case rule that supports prefix / suffix exceptions gets a broad list of both, so that many identifiers of the
+    corpus fall under an exception (the stem is re-cased, the affix kept)"""
+    rules = {}
+    for rid in sorted(table):
+        at = table[rid].get("attrs", [])
+        if "suffix_exceptions" in at and "prefix_exceptions" in at and "case" in at:
+            s = {"case": case, "prefix_exceptions": list(PREFIXES), "suffix_exceptions": list(SUFFIXES)}
+            if table[rid]["disabled_by_default"]:
+                s["disable"] = False
+            rules[rid] = s
     return {"rule": rules}, set(rules)
 
 
